@@ -60,6 +60,7 @@ def isAccepted (c : Cfg) (s : Nat) : Bool := isTag c s 0
 inductive Obs
   | enterCbs (s m : Nat) (snap : List (Option Nat))   -- `State.enter` reached: the on_enter callbacks run
   | exitCbs (s m : Nat) (snap : List (Option Nat))    -- `State.exit` reached: the on_exit callbacks run
+  | exitAbort (s m : Nat) (snap : List (Option Nat))  -- … and one of them raised: the exit (and the transition) is aborted
   | failure (s m : Nat) (snap : List (Option Nat))    -- Retry invoked `on_failure`
   | raised (s m : Nat)                                  -- Error raised MachineError
   | created (id : Nat)                                  -- Volatile instantiated `volatile_cls()`
@@ -83,7 +84,7 @@ def snap (c : Cfg) (m : Nat) (st : FS) : List (Option Nat) := (List.range c.nhoo
 def FS.push (st : FS) (o : Obs) : FS := { st with log := st.log ++ [o] }
 
 inductive Outcome
-  | entered | failed | raised
+  | entered | failed | raised | aborted
   deriving DecidableEq, Repr
 
 /-- `if event_data.transition.source != self.name: self.retry_counts[k] = 0` -/
@@ -117,34 +118,45 @@ def exitOp (c : Cfg) (s m : Nat) (st : FS) : FS :=
   let st1 := st.push (.exitCbs s m (snap c m st))
   if c.feats.contains .volatile then { st1 with hooks := set2 st1.hooks m (c.args s).hook none } else st1
 
+/-- `CustomState.exit(event_data)` when an on_exit callback raises: the exception leaves `State.exit` and
+`Volatile.exit` (no `finally` there), so the hook attribute stays; `Transition._change_state` is left
+before `set_state`: the model remains in the state, with its object. -/
+def exitFailOp (c : Cfg) (s m : Nat) (st : FS) : FS :=
+  st.push (.exitAbort s m (snap c m st))
+
 inductive Op
   | enter (s m src : Nat)
   | exit (s m : Nat)
+  | exitFail (s m : Nat)        -- an exit whose callbacks raise
   deriving DecidableEq, Repr
 
 def Op.model : Op → Nat
   | .enter _ m _ => m
   | .exit _ m => m
+  | .exitFail _ m => m
 
 def Op.state : Op → Nat
   | .enter s _ _ => s
   | .exit s _ => s
+  | .exitFail s _ => s
 
 def step (c : Cfg) : Op → FS → FS × Outcome
   | .enter s m src, st => enterOp c s m src st
   | .exit s m, st => (exitOp c s m st, .entered)
+  | .exitFail s m, st => (exitFailOp c s m st, .aborted)
 
 /-- a history of entries and exits (a MachineError ends a *trigger*, not the history) -/
 def runOps (c : Cfg) : List Op → FS → FS
   | [], st => st
   | o :: r, st => runOps c r (step c o st).1
 
-/-- the ops of one trigger call: stops at a MachineError -/
+/-- the ops of one trigger call: stops at a MachineError (flag) or at an aborted exit -/
 def runGroup (c : Cfg) : List Op → FS → FS × Bool
   | [], st => (st, false)
   | o :: r, st =>
     match step c o st with
     | (st1, .raised) => (st1, true)
+    | (st1, .aborted) => (st1, false)
     | (st1, _) => runGroup c r st1
 
 /-! ### flat machine layer (`Event._trigger`, `Transition.execute/_change_state`, no conditions) -/
@@ -171,19 +183,21 @@ structure MS where
   cur : Nat → Nat              -- model → state
 
 inductive TRes
-  | ok | ignored | invalid | errorState
+  | ok | ignored | invalid | errorState | vetoed
   deriving DecidableEq, Repr
 
 def TRes.code : TRes → Nat
-  | .ok => 0 | .ignored => 1 | .invalid => 2 | .errorState => 3
+  | .ok => 0 | .ignored => 1 | .invalid => 2 | .errorState => 3 | .vetoed => 4
 
-def trigger (F : Flat) (m ev : Nat) (ms : MS) : MS × TRes :=
+/-- `veto`: an on_exit callback of the source state raises during this trigger -/
+def trigger (F : Flat) (m ev : Nat) (ms : MS) (veto : Bool := false) : MS × TRes :=
   match F.trans.find? (fun t => t.ev = ev ∧ t.src = ms.cur m) with
   | none => (ms, if F.ignoreInvalid then .ignored else .invalid)
   | some t =>
     match t.dest with
     | none => (ms, .ok)
     | some d =>
+      if veto then ({ ms with fs := exitFailOp F.cfg t.src m ms.fs }, .vetoed) else
       let fs1 := exitOp F.cfg t.src m ms.fs
       let r := enterOp F.cfg d m t.src fs1
       ({ fs := r.1, cur := fun x => if x = m then d else ms.cur x },
@@ -193,19 +207,20 @@ def trigger (F : Flat) (m ev : Nat) (ms : MS) : MS × TRes :=
 
 /-- an observation without object identities: (kind, state, model, hooks present?) -/
 inductive ObsE
-  | enterCbs (s m : Nat) | exitCbs (s m : Nat) | failure (s m : Nat) | raised (s m : Nat)
+  | enterCbs (s m : Nat) | exitCbs (s m : Nat) | failure (s m : Nat) | raised (s m : Nat) | exitAbort (s m : Nat)
   deriving DecidableEq, Repr
 
 /-- what a plain machine's recorders see of an observation (`created` is invisible) -/
 def Obs.plain : Obs → Option ObsE
   | .enterCbs s m _ => some (.enterCbs s m)
   | .exitCbs s m _ => some (.exitCbs s m)
+  | .exitAbort s m _ => some (.exitAbort s m)
   | .failure s m _ => some (.failure s m)
   | .raised s m => some (.raised s m)
   | .created _ => none
 
 def ObsE.model : ObsE → Nat
-  | .enterCbs _ m => m | .exitCbs _ m => m | .failure _ m => m | .raised _ m => m
+  | .enterCbs _ m => m | .exitCbs _ m => m | .failure _ m => m | .raised _ m => m | .exitAbort _ m => m
 
 def plainLog (l : List Obs) : List ObsE := l.filterMap Obs.plain
 
@@ -223,12 +238,27 @@ namespace Feat
 /-- `o` is a re-entry of `s` by model `m` from `s` itself (`transition.source == self.name`) -/
 def isSelf (s m : Nat) : Op → Bool
   | .enter s' m' src => decide (s' = s ∧ m' = m ∧ src = s)
-  | .exit _ _ => false
+  | _ => false
 
 /-- `o` is an entry of `s` by model `m` from another state -/
 def isForeign (s m : Nat) : Op → Bool
   | .enter s' m' src => decide (s' = s ∧ m' = m ∧ src ≠ s)
-  | .exit _ _ => false
+  | _ => false
+
+/-- `state.tags = l` / in-place edits of the public `tags` list of a built state (`l` = the list afterwards) -/
+def Cfg.setTags (c : Cfg) (s : Nat) (l : List Nat) : Cfg :=
+  { c with args := fun x => if x = s then { c.args x with tags := l, accepted := false } else c.args x }
+
+/-- C19's Retry clause as the *hierarchical* engine exercises it, full strength.  After an entry of `s` by
+`m` from another state come `seen.length` consecutive re-entries of `s` from `s` itself and then one more;
+`Retry.enter` reads `event_data.transition.source` for each of them, which is the source *as written in the
+transition's declaration* (`seen[i]`, `last`): the full name when declared on the machine, the name relative
+to the parent when declared inside the parent's state dict (`'transitions': [['again', 'b', 'b']]`).
+The clause: that last re-entry runs the enter callbacks iff it is at most the `retries`-th. -/
+def RetryExactScoped (c : Cfg) (s m : Nat) : Prop :=
+  ∀ (st : FS) (src0 : Nat), src0 ≠ s → ∀ (seen : List Nat) (last : Nat),
+    ((enterOp c s m last (runOps c (.enter s m src0 :: seen.map (fun x => Op.enter s m x)) st)).2 = .entered ↔
+      seen.length + 1 ≤ (c.args s).retries)
 
 /-- the undecorated machine: no mixins in the state class -/
 def Cfg.plain (c : Cfg) : Cfg := { c with feats := [] }
